@@ -13,6 +13,7 @@ import (
 	"time"
 
 	"github.com/btcsuite/btcd/btcec/v2"
+	"github.com/elementsproject/peerswap/lnd"
 	"github.com/elementsproject/peerswap/lwk"
 	"github.com/elementsproject/peerswap/premium"
 	"github.com/elementsproject/peerswap/swap"
@@ -663,7 +664,7 @@ func runC19Watcher(r *Run, seed int64, backend string) {
 	w := sim.NewWorld(seed)
 	defer w.Close()
 	chain, confs := w.LBTC, uint32(2)
-	if backend == "bitcoind" {
+	if backend == "bitcoind" || backend == "lnd" {
 		chain, confs = w.BTC, 3
 	}
 	chain.Mine(1)
@@ -679,6 +680,9 @@ func runC19Watcher(r *Run, seed int64, backend string) {
 			return
 		}
 		watch = ew
+	} else if backend == "lnd" {
+		lf := &sim.LndChainFake{C: chain}
+		watch = lnd.VerifNewTxWatcher(ctx, lf, lf, sim.BtcParams, confs, 1008)
 	} else {
 		watch = txwatcher.NewBlockchainRpcTxWatcher(ctx, &sim.RpcFacade{C: chain}, confs)
 	}
@@ -711,7 +715,7 @@ func runC19Watcher(r *Run, seed int64, backend string) {
 	for i := 0; i < 4; i++ {
 		script := append([]byte{0x00, 0x20}, randBytes(32)...)
 		var hexTx string
-		if backend == "bitcoind" {
+		if backend == "bitcoind" || backend == "lnd" {
 			hexTx, _ = buildBtcTx(1, []outSpec{{Script: script, Value: 70_000}})
 		} else {
 			hexTx, _, _ = buildLiquidTx(1, []outSpec{{Script: script, Value: 70_000, Explicit: true}})
@@ -787,8 +791,8 @@ func TestC19(t *testing.T) {
 	n := r.N(40, 400)
 	parallelDo(n, 3, func(i int) { runC19World(r, r.Seed*4261+int64(i)+1) })
 	// the real watchers on their own, with registrations, blocks and all kinds of consumer answers at once
-	parallelDo(r.N(9, 60), 3, func(i int) {
-		runC19Watcher(r, r.Seed*1277+int64(i)+1, []string{"electrum", "bitcoind", "elementsd"}[i%3])
+	parallelDo(r.N(12, 80), 3, func(i int) {
+		runC19Watcher(r, r.Seed*1277+int64(i)+1, []string{"electrum", "bitcoind", "elementsd", "lnd"}[i%4])
 	})
 	// concurrent channel acquisition and peersync under the race detector as well
 	parallelDo(r.N(10, 100), 4, func(i int) { runC10Conc(r, r.Seed*977+int64(i)+1) })
@@ -898,6 +902,17 @@ func runC22(r *Run, seed int64, c c22Case) {
 		tk.Send("alice", ref.MsgCoopClose, &swap.CoopCloseMessage{SwapId: id, Message: "x", Privkey: "zz"})
 	case "csv":
 		chain.Mine(int(ref.CSV(c.chain, 7)) + 2)
+	case "csv-slow-wallet":
+		// the CSV matures and the wallet / chain backend takes 12 retry intervals to build and broadcast the refund:
+		// the node is refunding, it is no longer waiting for the taker
+		m.OnCrossing = func(k int64, op string) {
+			if op == c.chain+".csv" {
+				w.Emit("alice", 0, "c22.spend-begins", sim.EvNote{})
+				time.Sleep(12 * interval)
+				w.Emit("alice", 0, "c22.spend-ends", sim.EvNote{})
+			}
+		}
+		chain.Mine(int(ref.CSV(c.chain, 7)) + 2)
 	case "csv-unreachable":
 		// the taker disconnects: every further send of the announcement fails; then the CSV matures
 		unreachable.Store(true)
@@ -929,6 +944,7 @@ func runC22(r *Run, seed int64, c c22Case) {
 	var movedOn int64
 	var first []byte
 	copiesAfter, copies, copiesLate := 0, 0, 0
+	inSpend, copiesInSpend := false, 0
 	var late int64
 	liveMax := 0
 	incOfMove := 0
@@ -937,6 +953,10 @@ func runC22(r *Run, seed int64, c c22Case) {
 			continue
 		}
 		switch e.Kind {
+		case "c22.spend-begins":
+			inSpend = true
+		case "c22.spend-ends":
+			inSpend = false
 		case "c22.late":
 			late = e.Seq
 		case "store.write":
@@ -951,6 +971,9 @@ func runC22(r *Run, seed int64, c c22Case) {
 				continue
 			}
 			copies++
+			if inSpend {
+				copiesInSpend++
+			}
 			if first == nil {
 				first = x.Payload
 			} else if string(first) != string(x.Payload) {
@@ -977,6 +1000,10 @@ func runC22(r *Run, seed int64, c c22Case) {
 	r.Count("announcement_copies_seen", copies)
 	r.Seen(fmt.Sprintf("%s/%s/%s/final=%s/copies-after-move=%d", c.chain, c.typ, c.cont, final, min(copiesAfter, 3)))
 	det := fmt.Sprintf("%d copies in total, %d after the swap moved on, %d of them more than 12 retry intervals later (state %s); case %+v seed %d", copies, copiesAfter, copiesLate, final, c, seed)
+	if copiesInSpend > 2 { // (a stopped sender may still find one or two ticks already due)
+		r.Violate("stops-when-moved-on", fmt.Sprintf("C22|retransmission-while-refunding|%s|%s", c.typ, c.cont),
+			fmt.Sprintf("%d copies of opening_tx_broadcasted were sent while the node was building / broadcasting its refund (12 retry intervals); case %+v seed %d", copiesInSpend, c, seed), traceOf(w))
+	}
 	if liveMax > 1 {
 		r.Violate("one-retransmitter", "C22|more-than-one-retransmitter|"+c.cont, det, nil)
 	}
@@ -1009,7 +1036,7 @@ func TestC22(t *testing.T) {
 	var cases []c22Case
 	for _, ch := range []string{"btc", "lbtc"} {
 		for _, ty := range []string{"in", "out"} {
-			for _, ct := range []string{"payment", "cancel", "coop-good", "coop-bad", "invalid", "csv", "restart", "csv-unreachable"} {
+			for _, ct := range []string{"payment", "cancel", "coop-good", "coop-bad", "invalid", "csv", "restart", "csv-unreachable", "csv-slow-wallet"} {
 				cases = append(cases, c22Case{ch, ty, ct})
 			}
 		}
